@@ -419,7 +419,12 @@ def AllocEnvOK (held : List Seg) (s : Arena) (bytes align : Nat) (e : Env) : Pro
   (1 ≤ s.pagesNeeded bytes align → PageOKenv held s.pageSize e.pg1) ∧
   (s.pagesNeeded bytes align = 2 →
       PageOKenv held s.pageSize e.pg2 ∧ Disj ⟨e.pg1, s.pageSize⟩ ⟨e.pg2, s.pageSize⟩) ∧
-  (∀ b a, s.upRequest bytes align = some (b, a) → UpOKenv held e.up b a)
+  (∀ q ∈ s.upRequest bytes align, UpOKenv held e.up q.1 q.2)
+
+instance (held : List Seg) (ps p : Nat) : Decidable (PageOKenv held ps p) := by unfold PageOKenv; infer_instance
+instance (held : List Seg) (u b a : Nat) : Decidable (UpOKenv held u b a) := by unfold UpOKenv; infer_instance
+instance (held : List Seg) (s : Arena) (bytes align : Nat) (e : Env) : Decidable (AllocEnvOK held s bytes align e) := by
+  unfold AllocEnvOK; infer_instance
 
 theorem allocate_post (held : List Seg) {s : Arena} (hc : Core s) (hsub : ∀ r ∈ regions s, r ∈ held)
     (bytes align : Nat) (kind : Kind) (e : Env) (hal : ∃ k, align = 2 ^ k)
@@ -453,13 +458,15 @@ theorem allocate_post (held : List Seg) {s : Arena} (hc : Core s) (hsub : ∀ r 
       simp only [Arena.pagesNeeded, Arena.allocPath, if_neg hfast, if_pos hcond', hroom', if_neg h1', if_neg h2']
       simp
     · intro hcond hroom
-      refine henv.2.2 _ _ ?_
+      refine henv.2.2 (_, _) ?_
+      rw [Option.mem_def]
       have hroom' : s.ovRoom = true := hroom
       have hcond' : ¬ (bytes ≤ s.pageSize ∧ align ≤ s.pageSize) := hcond
       simp only [Arena.upRequest, Arena.allocPath, if_neg hfast, if_neg hcond', hroom']
       simp
     · intro hcond hroom
-      refine henv.2.2 _ _ ?_
+      refine henv.2.2 (_, _) ?_
+      rw [Option.mem_def]
       have hroom' : s.ovRoom = false := hroom
       have hcond' : ¬ (bytes ≤ s.pageSize ∧ align ≤ s.pageSize) := hcond
       simp only [Arena.upRequest, Arena.allocPath, if_neg hfast, if_neg hcond', hroom']
